@@ -34,7 +34,8 @@ import types
 import numpy as np
 
 import molli as ml
-from molli.chem import Atom, AtomType, Element, BondType, BondStereo
+import attrs
+from molli.chem import Atom, Bond, AtomType, AtomStereo, AtomGeom, Element, BondType, BondStereo
 
 from mc.props import c11_num as N
 from mc.props.c11_num import TOL, EPS
@@ -56,7 +57,16 @@ SKEL_ORDER = ["a1", "p2", "p3", "p4", "s4", "r3"]
 # case share a direction, so equal poses do not make attachment vectors parallel by accident
 AP_DIRS = [(-0.62, -0.58, -0.53), (0.18, -0.85, -0.49), (-0.35, 0.28, -0.89), (0.25, -0.35, 0.9), (0.71, 0.65, 0.27), (-0.2, 0.55, 0.81), (0.44, -0.3, -0.85), (-0.77, 0.1, 0.63)]
 ELEMS = ["C", "N", "O", "S"]
-COV1 = {"C": 0.75, "N": 0.71, "O": 0.63, "S": 1.03}  # Pyykko single-bond radii (informational only)
+# Single-bond covalent radii (Pyykko & Atsumi, Chem. Eur. J. 2009, 15, 186), in Angstrom: a literal table of the
+# harness, equal to what Element.cov_radius_1 returned on the reference tree (e2f2ed0) for these elements. The
+# default length of a new bond (join without dist) is documented as the sum of the two single-bond radii
+# (Bond.expected_length); an element without a radius counts as carbon there.
+COV1 = {
+    "H": 0.32, "Li": 1.33, "B": 0.85, "C": 0.75, "N": 0.71, "O": 0.63, "F": 0.64, "Na": 1.55, "Mg": 1.39, "Al": 1.26,
+    "Si": 1.16, "P": 1.11, "S": 1.03, "Cl": 0.99, "Ti": 1.36, "Fe": 1.16, "Cu": 1.12, "Zn": 1.18, "Se": 1.16, "Br": 1.14,
+    "Pd": 1.20, "Sn": 1.40, "I": 1.33, "Pt": 1.23,
+}
+NO_RADIUS = "Unknown"  # the only element without cov_radius_1 on the reference tree: falls back to carbon (0.75)
 AP_POS = ["last", "first", "after"]
 
 
@@ -105,11 +115,15 @@ def build(cls, rows, blist, coords, name, charge, mult, decorate=True):
         else:
             a = Atom(el, label=lab)
             if decorate:
-                a.attrib = {"k": k}
-                if k % 3 == 1:
-                    a.formal_charge = 1
-                if k % 4 == 2:
-                    a.isotope = 13
+                # a distinct non-default value in EVERY field of every atom (no two enum fields share a number)
+                a.attrib = {"k": k, "tag": lab}
+                a.formal_charge = (1, -1, 2)[k % 3]
+                a.formal_spin = (1, 2)[k % 2]
+                a.isotope = 13 + k
+                a.atype = (AtomType.Aromatic, AtomType.sp3, AtomType.sp2, AtomType.sp, AtomType.Hypervalent, AtomType.CoordinationCenter)[k % 6]
+                a.stereo = (AtomStereo.R, AtomStereo.S, AtomStereo.Delta, AtomStereo.Lambda, AtomStereo.Tet_CW, AtomStereo.Tet_CCW, AtomStereo.NotStereogenic)[k % 7]
+                geoms = [g for g in AtomGeom if int(g) != 0 and int(g) != int(a.stereo) and int(g) != int(a.atype)]
+                a.geom = geoms[(3 * k + 2) % len(geoms)]
         c = [float(x) for x in coords[k]]
         if cls is ml.Molecule:
             m.add_atom(a, c, charge=0.0)
@@ -117,11 +131,16 @@ def build(cls, rows, blist, coords, name, charge, mult, decorate=True):
             m.add_atom(a, c)
     for n, (l1, l2) in enumerate(blist):
         kw = {}
-        if decorate and n == 0 and not (l1.find("AP") >= 0 or l2.find("AP") >= 0):
-            kw = dict(btype=BondType.Double, f_order=2.0, label="b0")
+        if decorate:
+            kw = dict(
+                btype=(BondType.Double, BondType.Triple, BondType.Aromatic, BondType.Amide, BondType.Quadruple)[n % 5],
+                stereo=(BondStereo.E, BondStereo.Z, BondStereo.Axial_R, BondStereo.Axial_S, BondStereo.NotStereogenic)[n % 5],
+                f_order=1.5 + 0.25 * n,
+                label=f"b{n}",
+            )
         b = m.connect(l1, l2, **kw)
         if decorate:
-            b.attrib = {"n": n}
+            b.attrib = {"n": n, "ends": l1 + "-" + l2}
     return m
 
 
@@ -142,13 +161,39 @@ def three_ap_frags():
 
 
 # ---- snapshots / reference tables ---------------------------------------------------------------------
+def _norm(v):
+    """a comparable plain value of one attrs field (enums by value, dicts by sorted items)"""
+    if isinstance(v, dict):
+        return repr(sorted(v.items(), key=repr))
+    if isinstance(v, bool) or v is None or isinstance(v, str):
+        return v
+    if isinstance(v, int):  # IntEnum members included: compared by value
+        return int(v)
+    if isinstance(v, float):
+        return float(v)
+    return repr(v)
+
+
+def _fields(obj, skip):
+    # enumerated at run time, so a field added to Atom / Bond later is compared as well
+    return tuple((f.name, _norm(getattr(obj, f.name.lstrip("_")))) for f in attrs.fields(type(obj)) if f.name not in skip)
+
+
 def atom_row(a):
-    return (int(a.element), a.isotope, a.label, int(a.atype), int(a.stereo), int(a.geom), a.formal_charge, a.formal_spin, repr(sorted(a.attrib.items())))
+    return _fields(a, ("_parent",))
+
+
+def row_label(r):
+    return dict(r).get("label")
+
+
+def bond_fields(b):
+    return _fields(b, ("a1", "a2", "_parent"))
 
 
 def bond_row(b):
     l1, l2 = sorted((b.a1.label, b.a2.label))
-    return (l1, l2, b.label, int(b.btype), int(b.stereo), float(b.f_order), repr(sorted(b.attrib.items())))
+    return (l1, l2, bond_fields(b))
 
 
 def snapshot(m):
@@ -198,6 +243,7 @@ class Part:
     def __init__(self, m, ap_indices):
         self.labels = [a.label for a in m.atoms]
         self.rows = [atom_row(a) for a in m.atoms]
+        self.sym = {a.label: a.element.name for a in m.atoms}
         self.coords = np.array(m.coords, dtype=float, copy=True)
         self.ids = {id(a) for a in m.atoms} | {id(b) for b in m.bonds}
         self.bonds = [bond_row(b) for b in m.bonds]
@@ -231,8 +277,15 @@ def judge_product(ctx, emit, res, core: Part, subs, cls, dist, want_charge, want
     exp_rows = sorted((p.rows[p.pos[l]] for p, l in exp_atoms), key=repr)
     got_rows = sorted((atom_row(a) for a in res.atoms), key=repr)
     if got_rows != exp_rows:
-        missing = [r[2] for r in exp_rows if r not in got_rows]
-        extra = [r[2] for r in got_rows if r not in exp_rows]
+        missing = [row_label(r) for r in exp_rows if r not in got_rows]
+        extra = [row_label(r) for r in got_rows if r not in exp_rows]
+        diff = sorted({n_ for g_, e_ in zip(got_rows, exp_rows) for (n_, x_), (_, y_) in zip(g_, e_) if x_ != y_}) if len(got_rows) == len(exp_rows) and sorted(map(row_label, got_rows), key=repr) == sorted(map(row_label, exp_rows), key=repr) else []
+        if diff:
+            # same labels, some other field of an atom differs: name the fields
+            by_l = {row_label(r): dict(r) for r in exp_rows}
+            fields_off = sorted({n_ for r in got_rows for n_, x_ in r if row_label(r) in by_l and by_l[row_label(r)].get(n_) != x_})
+            emit("atom-fields-differ[" + ",".join(fields_off) + "]", f"atoms of the product differ from the fragments' atoms in field(s) {fields_off}; e.g. {missing[:2]}")
+            return False
         emit("atoms-differ", f"atom table differs from (A + B - attachment points): {len(res.atoms)} atoms, expected {len(exp_rows)}; missing/changed {missing[:3]}, unexpected {extra[:3]}")
         return False
     all_ids = set(core.ids)
@@ -267,25 +320,17 @@ def judge_product(ctx, emit, res, core: Part, subs, cls, dist, want_charge, want
         for br in p.bonds:
             if br[0] in skip or br[1] in skip:
                 continue
-            exp_b.append((tuple(sorted((where[(pn, br[0])], where[(pn, br[1])]))),) + br[2:])
+            exp_b.append((tuple(sorted((where[(pn, br[0])], where[(pn, br[1])]))), br[2]))
     newb = []
     for sn, (sp, s_ap, c_ap) in enumerate(subs):
         i1 = where[(0, core.anchor(c_ap))]
         i2 = where[(sn + 1, sp.anchor(s_ap))]
         newb.append((i1, i2))
-        exp_b.append(
-            (
-                tuple(sorted((i1, i2))),
-                None,
-                int(new_bond_kw.get("btype", BondType.Single)),
-                int(new_bond_kw.get("bstereo", BondStereo.Unknown)),
-                float(new_bond_kw.get("bforder", 1.0)),
-                repr([]),
-            )
-        )
+        ref_bond = Bond(Atom(), Atom(), btype=new_bond_kw.get("btype", BondType.Single), stereo=new_bond_kw.get("bstereo", BondStereo.Unknown), f_order=new_bond_kw.get("bforder", 1.0))
+        exp_b.append((tuple(sorted((i1, i2))), bond_fields(ref_bond)))
     ridx = {id(a): i for i, a in enumerate(res.atoms)}
     try:
-        got_b = [(tuple(sorted((ridx[id(b.a1)], ridx[id(b.a2)]))), b.label, int(b.btype), int(b.stereo), float(b.f_order), repr(sorted(b.attrib.items()))) for b in res.bonds]
+        got_b = [(tuple(sorted((ridx[id(b.a1)], ridx[id(b.a2)]))), bond_fields(b)) for b in res.bonds]
     except KeyError:
         emit("bond-refers-to-foreign-atom", "a bond of the product refers to an atom that is not in the product")
         return False
@@ -325,6 +370,15 @@ def judge_product(ctx, emit, res, core: Part, subs, cls, dist, want_charge, want
         W.append((w / ell, ell))
         if dist is not None:
             _ratio("length", abs(ell - dist), dtol)
+        else:
+            e1, e2 = core.sym[core.anchor(c_ap)], sp.sym[sp.anchor(s_ap)]
+            r1 = COV1["C"] if e1 == NO_RADIUS else COV1.get(e1)
+            r2 = COV1["C"] if e2 == NO_RADIUS else COV1.get(e2)
+            if r1 is not None and r2 is not None:
+                _ratio("default-length", abs(ell - (r1 + r2)), dtol)
+                if abs(ell - (r1 + r2)) > dtol:
+                    emit("default-bond-length-not-the-sum-of-single-bond-radii", f"join without dist: new {e1}-{e2} bond is {ell:.9g} long, sum of the single-bond covalent radii {r1 + r2:.9g}")
+                    ok = False
         if dist is not None and abs(ell - dist) > dtol:
             emit("new-bond-length-not-as-requested", f"new bond length {ell:.12g}, requested {dist}")
             ok = False
@@ -428,6 +482,9 @@ def make_pair(ctx, case):
         cB[iB] = cB[anB] + float(rel) * vA
     A = build(cls, rowsA, blA, cA, "fragA", case.get("qA", 0), case.get("mA", 1))
     B = build(cls, rowsB, blB, cB, "fragB", case.get("qB", 0), case.get("mB", 1))
+    for frag, tag, aps_, use_, key in ((A, "A", apsA, useA, "elemA"), (B, "B", apsB, useB, "elemB")):
+        if case.get(key) is not None:
+            frag.get_atom(f"{tag}{aps_[use_]}").element = case[key]
     return cls, A, B, iA, iB
 
 
@@ -770,6 +827,43 @@ def part_near(ctx, spec):
     for i, c in enumerate(near_cases(ctx.thorough)[lo:hi]):
         exec_join(ctx, c)
         if lo == 0 and i == 2:
+            ctx.sample(c)
+
+
+DEFLEN_ELEMENTS = ["H", "Li", "B", "C", "N", "O", "F", "Na", "Mg", "Al", "Si", "P", "S", "Cl", "Ti", "Fe", "Cu", "Zn", "Se", "Br", "Pd", "Sn", "I", "Pt", NO_RADIUS]
+
+
+def deflen_cases(thorough):
+    """join WITHOUT dist for every pair of anchor elements of the list (and an element without a radius)"""
+    out = []
+    frA = [("a1", [0], 0, "last"), ("p3", [1], 0, "after"), ("s4", [0], 0, "first")]
+    frB = [("a1", [0], 0, "first"), ("p2", [1], 0, "last"), ("r3", [2], 0, "after")]
+    for i, ea in enumerate(DEFLEN_ELEMENTS):
+        for j, eb in enumerate(DEFLEN_ELEMENTS):
+            k = i + j
+            for rep_ in range(3 if thorough else 1):
+                out.append(
+                    {
+                        "family": "join",
+                        "A": list(frA[(k + rep_) % 3]),
+                        "B": list(frB[(k + 2 * rep_) % 3]),
+                        "elemA": ea,
+                        "elemB": eb,
+                        "dist": None,
+                        "opt": bool((k + rep_) % 2),
+                        "poseA": k % 6,
+                        "poseB": (k + 1 + rep_) % 6,
+                        "cls": "Structure" if k % 7 == 0 else "Molecule",
+                    }
+                )
+    return out
+
+
+def part_deflen(ctx, spec):
+    lo, hi = spec
+    for i, c in enumerate(deflen_cases(ctx.thorough)[lo:hi]):
+        exec_join(ctx, c)
+        if lo == 0 and i == 10:
             ctx.sample(c)
 
 
@@ -1433,7 +1527,7 @@ def part_main(ctx, spec):
 
 # =====================================================================================================
 EXEC = {"join": exec_join, "asm": exec_asm, "rejoin": exec_rejoin, "main": exec_main}
-PARTS = {"join": part_join, "qm": part_qm, "par": part_par, "asm": part_asm, "rejoin": part_rejoin, "near": part_near, "main": part_main}
+PARTS = {"join": part_join, "qm": part_qm, "par": part_par, "asm": part_asm, "rejoin": part_rejoin, "near": part_near, "main": part_main, "deflen": part_deflen}
 
 
 def _run_part(ctx, part):
@@ -1467,7 +1561,7 @@ def run(ctx):
         "antiparallel attachment vectors (" + par_text + " x {global pose, both anchors at the origin, axis aligned} x optimize_rotation) with EVERY "
         "answer of a 12-entry numpy.random.rand menu (+ answers parallel to v2 when they lie in [0,1)^3); every case is executed at least twice "
         "with different answers and different global generator seeds; iterated joins through scripts/combine._ml_assemble for every order of "
-        "core_aps; the entry point molli_main driven in-process with an argument vector on .mlib files (cores with 2 and 3 labelled attachment "
+        "core_aps; join without dist for every ordered pair of anchor elements out of 24 elements with a single-bond radius + one without (625 pairs); the entry point molli_main driven in-process with an argument vector on .mlib files (cores with 2 and 3 labelled attachment "
         "points: every placement of the labels on the attachment points x every order of -a on the command line x modes "
         "{permutns, same, combns, combns_repl} x routes {by label, one shared label, by atom type}, one or two cores per library), products read "
         "back from the output library and identified by marker elements; near-degenerate relative orientations: B's attachment vector turned by {0.01, 0.3, 1, 2, 5} degrees off exactly antiparallel "
@@ -1486,7 +1580,8 @@ def run(ctx):
         "'points along A's former attachment direction' and B's orientation are judged without assuming how A is moved: A (resp. B) together with the point where its attachment point has to end up - at the original anchor-AP distance along the new bond - must be congruent (distances and signed volumes) with the input fragment including its attachment point",
         "near-degenerate orientations (tilt family) are judged with 1e-9 widened to 256 eps / max(1+cos(v2,-v1), 1e-6) <= 5.7e-8, the conditioning of the rotation join documents to build with tol=1e-6; everything else stays at 1e-9",
         "molli_main layer: nprocs=1, no --hadd, no --obopt; products come back through the library codec (single precision), so only names, atom/bond tables and which core atom carries which substituent (marker element S / P / Cl) are judged there; the expected combinations are itertools over the substituents in the order the library lists them",
-        "dist=None requests no length: only a finite positive bond length is demanded there",
+        "join without dist: the new bond's length is the sum of the two anchors' single-bond covalent radii (documented by Bond.expected_length), taken from a literal Pyykko table in this module (24 elements, equal to the reference tree's values); an element without a radius counts as carbon; anchors outside the table are not judged for length",
+        "every attrs field of every atom and bond (enumerated with attrs.fields at run time, parent excluded) is compared between product and fragments; the fragments carry a distinct non-default value in every field",
         "a multiplicity override of 0 is not a multiplicity and is not enumerated; the charge override 0 is",
         "partial (atomic) charges of the inputs are not part of the property; shared attrib dictionaries belong to C06",
         "`molli combine` passes core_aps in ascending index order unless `-a` labels are given in another order; both orders are enumerated and reported under different signatures",
@@ -1514,6 +1609,10 @@ def run(ctx):
     na = len(asm_cases(thorough))
     for lo, hi in _chunks(na, 16):
         parts.append(("asm", (lo, hi)))
+    nd = len(deflen_cases(thorough))
+    for lo, hi in _chunks(nd, 4):
+        parts.append(("deflen", (lo, hi)))
+    ctx.bound["default_length_element_pairs"] = len(DEFLEN_ELEMENTS) ** 2
     nm = len(main_cases(thorough))
     for lo, hi in _chunks(nm, 16):
         parts.append(("main", (lo, hi)))
